@@ -217,14 +217,23 @@ def _worker_inner(prop_id, tier, seed, widx, nworkers, n_examples, mode,
           process(case, 'enumerated')
 
     # 2. generated cases
-    if n_examples > 0:
-      @hypothesis.seed(hseed)
-      @settings(max_examples=n_examples, phases=[Phase.generate], **common)
+    # Blocks of at most 1000 examples, each with its own derived seed: Hypothesis' per-run
+    # bookkeeping grows with max_examples, which made 12000-example runs several times slower
+    # per case than 500-example runs.
+    done = 0
+    block = 0
+    while done < n_examples:
+      n_block = min(1000, n_examples - done)
+
+      @hypothesis.seed(hseed + 7919 * block)
+      @settings(max_examples=n_block, phases=[Phase.generate], **common)
       @given(mod.strategy(tier))
       def campaign(case):
         process(case, 'generated')
 
       campaign()
+      done += n_block
+      block += 1
   else:
     # shrink mode: same seed, raise only for target bucket, bounded shrinking
     budget = int(os.environ.get('VERIF_SHRINK_EVALS', '600'))
@@ -248,21 +257,27 @@ def _worker_inner(prop_id, tier, seed, widx, nworkers, n_examples, mode,
         shrink_state['last'] = case
         raise _Bucket(target_bucket)
 
-    @hypothesis.seed(hseed)
-    @settings(max_examples=max(n_examples, 1),
-              phases=[Phase.generate, Phase.shrink], **common)
-    @given(mod.strategy(tier))
-    def shrink_run(case):
-      body(case)
+    done = 0
+    block = 0
+    while done < max(n_examples, 1) and shrink_state['last'] is None:
+      n_block = min(1000, max(n_examples, 1) - done)   # the same blocks and seeds as in collect mode
 
-    try:
-      shrink_run()
-    except _Abort:
-      pass
-    except _Bucket:
-      pass
-    except Exception:  # flaky etc: keep the last failing case we saw
-      st['shrink_note'] = traceback.format_exc()[-1500:]
+      @hypothesis.seed(hseed + 7919 * block)
+      @settings(max_examples=n_block, phases=[Phase.generate, Phase.shrink], **common)
+      @given(mod.strategy(tier))
+      def shrink_run(case):
+        body(case)
+
+      try:
+        shrink_run()
+      except _Abort:
+        pass
+      except _Bucket:
+        pass
+      except Exception:  # flaky etc: keep the last failing case we saw
+        st['shrink_note'] = traceback.format_exc()[-1500:]
+      done += n_block
+      block += 1
     st['shrunk'] = shrink_state['last']
 
   st['nontrivial_hashes'] = sorted(st['nontrivial_hashes'])
